@@ -63,3 +63,54 @@ package jsonata
 //@ field jsonata.environment.symbols owned
 //@ field jsonata.environment.parent shared
 //@ field jsonata.sortinfo.values owned
+
+// ---------------------------------------------------------------------------
+// eval.go: the evaluator. `eval` is the induction hypothesis of every per-construct contract below: it
+// returns a value or an error (never both), and a missing value is the invalid reflect.Value.
+// E(n) in the comments = the value eval returns for sub-node n at that call: ret("eval#k", 0).
+
+//@ pred evalErrIs(e error, t ErrType) = e != nil && typeis(e, "*EvalError") && dyn(e, "*EvalError") != nil && dyn(e, "*EvalError").Type == t
+
+//@ func newEvalError
+//@   props C03 C09
+//@   ensures result != nil && result.Type == typ && fresh(result)
+//@   assigns heap
+
+//@ func eval
+//@   requires nn(node)
+//@   ensures r1 != nil ==> !valid(r0)
+//@   assigns heap
+//@   trusted
+
+// --- C03: numeric operators -------------------------------------------------------------------------
+// Statement: + - * / % compute the IEEE-754 double result (% = truncated remainder, sign of the dividend);
+// a missing operand gives no value; a wrong-typed operand, an infinite or NaN result is an evaluation error
+// of the corresponding kind and never a value.
+
+//@ pred arithRes(r0 reflect.Value, r1 error, x float64) = (isInf(x) ==> (evalErrIs(r1, ErrNumberInf) && !valid(r0))) && (isNaN(x) ==> (evalErrIs(r1, ErrNumberNaN) && !valid(r0))) && (finite(x) ==> (r1 == nil && kind(r0) == 14 && same(fval(r0), x)))
+//@ pred isNumV(v reflect.Value) = numKind(kind(res(v)))
+//@ pred isF64V(v reflect.Value) = kind(res(v)) == 14
+
+//@ func evalNumericOperator
+//@   props C03 C09
+//@   requires node != nil
+//@   preserves node
+//@   abstract-float
+//@   ensures [C03:error-propagates] (ret("eval#0", 1) != nil ==> r1 == ret("eval#0", 1)) && ((ret("eval#0", 1) == nil && ret("eval#1", 1) != nil) ==> r1 == ret("eval#1", 1))
+//@   ensures [C03:wrong-type-lhs] (ret("eval#0", 1) == nil && ret("eval#1", 1) == nil && valid(ret("eval#0", 0)) && !isNumV(ret("eval#0", 0))) ==> (evalErrIs(r1, ErrNonNumberLHS) && !valid(r0))
+//@   ensures [C03:wrong-type-rhs] (ret("eval#0", 1) == nil && ret("eval#1", 1) == nil && (!valid(ret("eval#0", 0)) || isNumV(ret("eval#0", 0))) && valid(ret("eval#1", 0)) && !isNumV(ret("eval#1", 0))) ==> (evalErrIs(r1, ErrNonNumberRHS) && !valid(r0))
+//@   ensures [C03:missing-operand] (ret("eval#0", 1) == nil && ret("eval#1", 1) == nil && (!valid(ret("eval#0", 0)) || isNumV(ret("eval#0", 0))) && (!valid(ret("eval#1", 0)) || isNumV(ret("eval#1", 0))) && (!valid(ret("eval#0", 0)) || !valid(ret("eval#1", 0)))) ==> (r1 == nil && !valid(r0))
+//@   ensures [C03:add] (ret("eval#0", 1) == nil && ret("eval#1", 1) == nil && isF64V(ret("eval#0", 0)) && isF64V(ret("eval#1", 0)) && node.Type == jparse.NumericAdd) ==> arithRes(r0, r1, fval(res(ret("eval#0", 0))) + fval(res(ret("eval#1", 0))))
+//@   ensures [C03:subtract] (ret("eval#0", 1) == nil && ret("eval#1", 1) == nil && isF64V(ret("eval#0", 0)) && isF64V(ret("eval#1", 0)) && node.Type == jparse.NumericSubtract) ==> arithRes(r0, r1, fval(res(ret("eval#0", 0))) - fval(res(ret("eval#1", 0))))
+//@   ensures [C03:multiply] (ret("eval#0", 1) == nil && ret("eval#1", 1) == nil && isF64V(ret("eval#0", 0)) && isF64V(ret("eval#1", 0)) && node.Type == jparse.NumericMultiply) ==> arithRes(r0, r1, fval(res(ret("eval#0", 0))) * fval(res(ret("eval#1", 0))))
+//@   ensures [C03:divide] (ret("eval#0", 1) == nil && ret("eval#1", 1) == nil && isF64V(ret("eval#0", 0)) && isF64V(ret("eval#1", 0)) && node.Type == jparse.NumericDivide) ==> arithRes(r0, r1, fval(res(ret("eval#0", 0))) / fval(res(ret("eval#1", 0))))
+//@   ensures [C03:modulo] (ret("eval#0", 1) == nil && ret("eval#1", 1) == nil && isF64V(ret("eval#0", 0)) && isF64V(ret("eval#1", 0)) && node.Type == jparse.NumericModulo) ==> arithRes(r0, r1, fmod(fval(res(ret("eval#0", 0))), fval(res(ret("eval#1", 0)))))
+
+//@ func evalNegation
+//@   props C03 C09
+//@   requires node != nil
+//@   preserves node
+//@   ensures [C03:error-propagates] ret("eval#0", 1) != nil ==> r1 == ret("eval#0", 1)
+//@   ensures [C03:missing-operand] (ret("eval#0", 1) == nil && !valid(ret("eval#0", 0))) ==> (r1 == nil && !valid(r0))
+//@   ensures [C03:wrong-type] (ret("eval#0", 1) == nil && valid(ret("eval#0", 0)) && !isNumV(ret("eval#0", 0))) ==> (evalErrIs(r1, ErrNonNumberRHS) && !valid(r0))
+//@   ensures [C03:negate] (ret("eval#0", 1) == nil && isF64V(ret("eval#0", 0))) ==> (r1 == nil && kind(r0) == 14 && same(fval(r0), -fval(res(ret("eval#0", 0)))))
